@@ -12,6 +12,10 @@
 (define-fun spec.addNoWrap ((a (_ BitVec 64)) (b (_ BitVec 64))) Bool (bvuge (bvadd a b) a))
 (define-fun spec.satAdd ((a (_ BitVec 64)) (b (_ BitVec 64))) (_ BitVec 64)
   (ite (bvult (bvadd a b) a) #xffffffffffffffff (bvadd a b)))
+; signed 64-bit addition leaves the int64 range (decided in 65 bits)
+(define-fun spec.addOverflows ((a (_ BitVec 64)) (b (_ BitVec 64))) Bool
+  (let ((s (bvadd ((_ sign_extend 1) a) ((_ sign_extend 1) b))))
+    (not (= ((_ extract 64 64) s) ((_ extract 63 63) s)))))
 (define-fun spec.mulNoWrap ((a (_ BitVec 64)) (b (_ BitVec 64))) Bool
   (= ((_ extract 127 64) (bvmul ((_ zero_extend 64) a) ((_ zero_extend 64) b))) #x0000000000000000))
 
@@ -60,3 +64,6 @@
 
 ; ---- float floor division / modulo -------------------------------------------
 (define-fun spec.floorDivFloat ((x Float64) (y Float64)) Float64 (fp.roundToIntegral RTN (fp.div RNE x y)))
+
+; ---- ghost provenance of IR registers (defined by the contract of ir.(*CodeBuilder).GetFreeRegister) ----
+(declare-fun spec.fromGetFreeRegister ((_ BitVec 64)) Bool)
